@@ -37,6 +37,9 @@ def build_series(vals, dt, na_kind):
         return pd.Series([na if v is None else v for v in vals], dtype=object)
     if dt == 'str':
         return pd.Series(vals, dtype='str')
+    if dt == 'string':
+        # the nullable pandas string dtype: missing values are pd.NA
+        return pd.Series(vals, dtype='string')
     if dt == 'int64':
         return pd.Series(vals, dtype='int64')
     if dt == 'float64':
